@@ -128,3 +128,20 @@ Proof. exact abs_value_le_sims. Qed.
 (* progress: a tree whose expanded nodes all have a child offers the sampler a valid path *)
 Theorem C08_live_has_path : forall n, Live n -> exists cs, valid cs n.
 Proof. exact live_has_path. Qed.
+
+(* ---- compositions (work package X; proofs/ComposeMcts.v) ---- *)
+From TV Require spec.Rules proofs.Generator proofs.ComposeMcts.
+(* "every expansion is legal" in the terms of C01 (rulebook relation) and C03 (canonical moves, id table): on a well-formed position the children are exactly the canonical moves the rulebook allows whose prior at the move's id reaches the cutoff, each once, and each child holds THE successor the rulebook prescribes *)
+Theorem C08_children_are_rulebook_moves : forall cutoff n ks,
+  Good cutoff n -> n_kids n = Some ks -> Rules.wf_pos (n_pos n) ->
+  Forall (fun k => n_move k <> None) ks /\ NoDup (map n_move ks) /\
+  (forall m, In (Some m) (map n_move ks) <->
+             Generator.canonical m /\ (exists p', Rules.legal_step (n_pos n) m p') /\
+             exists q, ComposeMcts.prior_at (n_raw n) (size (n_pos n)) m = Some q /\ cutoff <= q) /\
+  (forall k, In k ks -> exists m, n_move k = Some m /\ Rules.legal_step (n_pos n) m (n_pos k)).
+Proof. exact ComposeMcts.children_are_rulebook_moves. Qed.
+(* prior_at raw n m (= raw[encode_move n m]) is the entry of the prior vector at the position of m in the id table *)
+Theorem C08_prior_at_is_table_index : forall raw n m q,
+  ComposeMcts.prior_at raw n m = Some q <->
+  exists i, nth_error (table n) i = Some m /\ nth_error raw i = Some q.
+Proof. exact ComposeMcts.prior_at_spec. Qed.
